@@ -2256,7 +2256,19 @@ impl<const V: usize> Exec<V> {
         let mut c04_nontrivial = false;
         for (id, a) in &w.new_addr {
             let o = self.objs.get(id).unwrap();
-            let must_stay = o.pinned || matches!(o.sem, 1 | 2 | 6) || pinned_targets.contains(id) || tpinned.contains(id) || self.is_nogc;
+            // C04 as stated covers Immortal / Los / NonMoving semantics and objects pinned with pin_object.
+            // Pinning and transitively pinning *roots* are not part of the statement: a moved member of
+            // their closure is only counted (observation 18 of DESIGN.md section 7: in a StickyImmix nursery
+            // GC a young object reachable from a transitively pinning root only through an *old* object is
+            // reached via the remembered set and copied).
+            let must_stay = o.pinned || matches!(o.sem, 1 | 2 | 6) || self.is_nogc;
+            if o.addr != *a && !must_stay {
+                if pinned_targets.contains(id) {
+                    cnt!(self, "obs_pinning_root_target_moved");
+                } else if tpinned.contains(id) {
+                    cnt!(self, "obs_tpinned_closure_member_moved");
+                }
+            }
             if o.addr != *a {
                 moved += 1;
                 if must_stay {
